@@ -23,6 +23,7 @@ import (
 	"github.com/lightninglabs/pool/clientdb"
 	"github.com/lightninglabs/pool/order"
 	"github.com/lightninglabs/pool/poolscript"
+	"github.com/lightninglabs/pool/sidecar"
 	"github.com/lightninglabs/pool/terms"
 	"github.com/lightningnetwork/lnd/keychain"
 	"github.com/lightningnetwork/lnd/lnwallet/chainfee"
@@ -45,6 +46,7 @@ type c06World struct {
 	aucKey   *btcec.PublicKey
 	nonceIdx map[order.Nonce]int
 	batchIdx map[order.BatchID]int
+	ticket   *sidecar.Ticket
 }
 
 func c06Ser(k *btcec.PublicKey) (r [33]byte) {
@@ -87,6 +89,15 @@ func newC06World() *c06World {
 		}
 		w.txIdx[w.txs[t].TxHash()] = t
 	}
+	w.ticket = &sidecar.Ticket{
+		ID:      [8]byte{7, 7, 7, 1},
+		Version: sidecar.VersionDefault,
+		State:   sidecar.StateOffered,
+		Offer: sidecar.Offer{
+			Capacity: 1000000, PushAmt: 2000, LeaseDurationBlocks: 2016,
+			SignPubKey: w.acctKey[9],
+		},
+	}
 	for n := 0; n < 32; n++ {
 		w.nonceIdx[w.nonce(n)] = n
 		w.batchIdx[w.batchID(n)] = n
@@ -115,13 +126,73 @@ func (a c06Acct) str(k int) string {
 }
 
 type c06Ord struct {
-	State              int64
-	Unfilled, Units    uint64
-	Min                uint64
+	State           int64
+	Unfilled, Units uint64
+	Min             uint64
+	Bid             int64 // 1 = bid, 0 = ask
+	Tier            int64 // Bid.MinNodeTier
+	Extras          int64 // tag of the TLV-encoded optional terms (c06Extras)
 }
 
 func (o c06Ord) str(n int) string {
-	return fmt.Sprintf("%d:%d,%d,%d,%d", n, o.State, o.Unfilled, o.Units, o.Min)
+	return fmt.Sprintf("%d:%d,%d,%d,%d,%d,%d,%d", n, o.State, o.Unfilled, o.Units, o.Min, o.Bid, o.Tier, o.Extras)
+}
+
+// c06ParseOrd parses `state unfilled units min isBid tier extras`.
+func c06ParseOrd(f []string) c06Ord {
+	var v [7]uint64
+	for i := 0; i < 7 && i < len(f); i++ {
+		v[i], _ = strconv.ParseUint(f[i], 10, 64)
+	}
+	return c06Ord{int64(v[0]), v[1], v[2], v[3], int64(v[4]), int64(v[5]), int64(v[6])}
+}
+
+// c06Extras sets the optional, TLV-encoded terms of an order from a 3-bit tag:
+// bit 0: script enforced channel type + public flag; bit 1: allowed node
+// ids + outbound-liquidity auction type; bit 2: blocked node ids and, for
+// bids, self channel balance, sidecar ticket, unannounced + zero-conf flags,
+// for asks the announcement / confirmation constraints.
+func (w *c06World) c06Extras(o order.Order, tag int64) {
+	k := o.Details()
+	if tag&1 != 0 {
+		k.ChannelType = order.ChannelTypeScriptEnforced
+		k.IsPublic = true
+	}
+	if tag&2 != 0 {
+		k.AllowedNodeIDs = [][33]byte{c06Ser(w.acctKey[6]), c06Ser(w.acctKey[7])}
+		k.AuctionType = order.BTCOutboundLiquidity
+	}
+	if tag&4 != 0 {
+		k.NotAllowedNodeIDs = [][33]byte{c06Ser(w.acctKey[8])}
+		switch t := o.(type) {
+		case *order.Bid:
+			t.SelfChanBalance = 12345
+			t.SidecarTicket = w.ticket
+			t.UnannouncedChannel = true
+			t.ZeroConfChannel = true
+		case *order.Ask:
+			t.AnnouncementConstraints = order.OnlyUnannounced
+			t.ConfirmationConstraints = order.OnlyZeroConf
+		}
+	}
+}
+
+// c06ExtrasSig is the canonical text of the optional terms of a real order.
+func c06ExtrasSig(o order.Order) string {
+	k := o.Details()
+	s := fmt.Sprintf("ct=%d pub=%v allow=%x deny=%x at=%d", k.ChannelType, k.IsPublic, k.AllowedNodeIDs,
+		k.NotAllowedNodeIDs, k.AuctionType)
+	switch t := o.(type) {
+	case *order.Bid:
+		tk := "nil"
+		if t.SidecarTicket != nil {
+			tk = fmt.Sprintf("%x/%d/%d", t.SidecarTicket.ID, t.SidecarTicket.Offer.Capacity, t.SidecarTicket.State)
+		}
+		s += fmt.Sprintf(" scb=%d tk=%s un=%v zc=%v", t.SelfChanBalance, tk, t.UnannouncedChannel, t.ZeroConfChannel)
+	case *order.Ask:
+		s += fmt.Sprintf(" ac=%d cc=%d", t.AnnouncementConstraints, t.ConfirmationConstraints)
+	}
+	return s
 }
 
 type c06Snap struct {
@@ -333,10 +404,28 @@ func (d *c06DB) toAcct(k int, r c06Acct) *account.Account {
 
 func (d *c06DB) fromOrder(o order.Order) (int, c06Ord) {
 	k := o.Details()
-	return d.w.nonceIdx[o.Nonce()], c06Ord{
+	r := c06Ord{
 		State: int64(k.State), Unfilled: uint64(k.UnitsUnfulfilled), Units: uint64(k.Units),
-		Min: uint64(k.MinUnitsMatch),
+		Min: uint64(k.MinUnitsMatch), Extras: 99,
 	}
+	if b, ok := o.(*order.Bid); ok {
+		r.Bid, r.Tier = 1, int64(b.MinNodeTier)
+	}
+	// which tag do the optional terms read back as? (99 = none: damaged)
+	sig := c06ExtrasSig(o)
+	for tag := int64(0); tag < 8; tag++ {
+		var ref order.Order
+		if r.Bid == 1 {
+			ref = &order.Bid{}
+		} else {
+			ref = &order.Ask{}
+		}
+		d.w.c06Extras(ref, tag)
+		if c06ExtrasSig(ref) == sig {
+			r.Extras = tag
+		}
+	}
+	return d.w.nonceIdx[o.Nonce()], r
 }
 
 func (d *c06DB) toOrder(n int, r c06Ord) order.Order {
@@ -351,10 +440,14 @@ func (d *c06DB) toOrder(n int, r c06Ord) order.Order {
 	kit.LeaseDuration = 2016
 	kit.MultiSigKeyLocator = keychain.KeyLocator{Family: 1, Index: uint32(n)}
 	copy(kit.AcctKey[:], d.w.acctKey[1].SerializeCompressed())
-	if n%2 == 1 {
-		return &order.Ask{Kit: *kit}
+	var o order.Order
+	if r.Bid == 0 {
+		o = &order.Ask{Kit: *kit}
+	} else {
+		o = &order.Bid{Kit: *kit, MinNodeTier: order.NodeTier(r.Tier)}
 	}
-	return &order.Bid{Kit: *kit, MinNodeTier: order.NodeTier0}
+	d.w.c06Extras(o, r.Extras)
+	return o
 }
 
 func (d *c06DB) fromSnap(s *clientdb.LocalBatchSnapshot) *c06Snap {
@@ -919,13 +1012,12 @@ func (c *c06Case) step(op string) {
 			directA = map[int]c06Acct{int(v[0]): rec}
 		case "submit":
 			n := atoi(f[1])
-			var v [4]uint64
-			for i := 0; i < 4; i++ {
-				v[i], _ = strconv.ParseUint(f[2+i], 10, 64)
-			}
-			rec := c06Ord{int64(v[0]), v[1], v[2], v[3]}
+			rec := c06ParseOrd(f[2:])
 			res = c06ErrName(d.db.SubmitOrder(d.toOrder(n, rec)))
 			directO = map[int]c06Ord{n: rec}
+			if rec.Extras != 0 || rec.Tier != 0 || rec.Min > 1 {
+				r.Count("submit/non-default-terms")
+			}
 		case "stage":
 			id, tx, fee := atoi(f[1]), atoi(f[2]), f[3] == "1"
 			os_, _ := parseKeyList(f[4])
@@ -1372,10 +1464,25 @@ func (g *c06Gen) addacct(k int) string {
 		rng.Intn(500), tx, rng.Intn(2))
 }
 
+// terms draws `isBid tier extras`: 2/3 of the orders carry non-default
+// optional terms (node tier, TLV extras incl. a sidecar ticket).
+func (g *c06Gen) terms() string {
+	rng := g.r.Rng
+	bid, tier, extras := rng.Intn(2), 0, 0
+	if bid == 1 {
+		tier = rng.Intn(3)
+	}
+	if rng.Intn(3) > 0 {
+		extras = 1 + rng.Intn(7)
+	}
+	return fmt.Sprintf("%d %d %d", bid, tier, extras)
+}
+
 func (g *c06Gen) submit(n int) string {
 	rng := g.r.Rng
 	units := 1 + rng.Intn(50)
-	return fmt.Sprintf("submit %d %d %d %d %d", n, rng.Intn(3), rng.Intn(units+1), units, 1+rng.Intn(5))
+	return fmt.Sprintf("submit %d %d %d %d %d %s", n, rng.Intn(3), rng.Intn(units+1), units, 1+rng.Intn(5),
+		g.terms())
 }
 
 // stage builds a staging call; failAt >= 0 puts a failing element there.
